@@ -78,8 +78,49 @@ func runBidiCase[K comparable](c *core.Ctx, kind string, d *Dom[K]) {
 	c.Nontrivial()
 }
 
+// runBidiPeakDrain: more than a thousand pairs, then a drain through a
+// quarter and an eighth of the peak in which removals alternate with Puts that
+// collide on both sides (key present, value held by another key): shrink and
+// compaction policies fire in the middle of such a Put.
+func runBidiPeakDrain(c *core.Ctx, kind string) {
+	r := c.R
+	n := r.Range(1100, 2600)
+	d := IntDom(n)
+	a := newKVByKind(c, kind, d)
+	if a.KCmp != nil { // total orders only: n distinct keys and values
+		a = newTreeBidi[int, int](intCmps[[]int{0, 1, 3}[r.Intn(3)]], intCmps[[]int{0, 1, 3}[r.Intn(3)]])
+	}
+	m := NewKVMon(c, a, d)
+	m.Bidi = true
+	m.VD = []int{0, 6, 12, 18, 24, 3, -6}
+	c.SetGapMax(40)
+	for i := 0; i < n; i++ {
+		m.Put(i*6, i*6)
+	}
+	for m.n() > n/10 {
+		switch r.Pick(50, 35, 15) {
+		case 0:
+			m.Remove(m.Mod.Ents[r.Intn(m.n())].Key)
+		case 1:
+			// key of one live pair, value of another live pair
+			k := m.Mod.Ents[r.Intn(m.n())].Key
+			v := m.Mod.Ents[r.Intn(m.n())].Val
+			m.Put(k, v)
+		default:
+			m.GetKey()
+		}
+	}
+	m.Final()
+	c.Count("bidi:peak-drain-cases", 1)
+	c.Nontrivial()
+}
+
 func runC10(c *core.Ctx) {
 	kind := []string{"HashBidiMap", "TreeBidiMap"}[c.Index%2]
+	if (c.Index/2)%499 == 33 {
+		runBidiPeakDrain(c, kind)
+		return
+	}
 	if (c.Index/2)%101 == 17 {
 		runBidiCase(c, kind, IntDom(c.R.Range(100, 300)))
 		return
